@@ -118,6 +118,13 @@ func (r *Report) Count(key [16]byte, nontrivial bool, outcome string) {
 	r.mu.Unlock()
 }
 
+// Outcome adds one observation to the outcome histogram.
+func (r *Report) Outcome(o string) {
+	r.mu.Lock()
+	r.outcomes[o]++
+	r.mu.Unlock()
+}
+
 func (r *Report) AddStates(n, t int64) {
 	r.mu.Lock()
 	r.States += n
@@ -283,6 +290,9 @@ func (r *Report) MergeInto(dst *Report) {
 	dst.mu.Lock()
 	defer dst.mu.Unlock()
 	dst.total += r.total
+	for k, v := range r.outcomes {
+		dst.outcomes[k] += v
+	}
 	for _, class := range r.foundOrder {
 		f := r.found[class]
 		if _, ok := dst.found[class]; ok {
